@@ -43,6 +43,7 @@ SLICES = {
     11: ('kind_other_name', dict(kind_decl='jprb_mod', kinds=('wp',))),
     13: ('sections', dict(sections=True)),
     15: ('select', dict(select=True)),
+    1: ('mod_in_product', dict(mod_in_product=True)),
 }
 
 
@@ -156,6 +157,8 @@ def _run(case, slice_name, wd, res, cnt):
     seen = set()
     for tagp, (key, msg, wit) in bad.items():
         only = '' if len(bad) == 2 and len({v[0] for v in bad.values()}) == 1 else f':only-{tagp}'
+        if slice_name != 'core' and key.startswith('f2c:output-differs:'):
+            key = 'f2c:output-differs'       # one key per gated mechanism, whatever output shows it first
         key = f'{key}:{slice_name}{only}'
         if key in seen:
             continue
